@@ -35,13 +35,16 @@ def r1_identity_gate(chk):
         for b, i, st in gate.aggregates():
             if st["r"].get("variant") != "Ok" or not st["r"].get("adt", "").endswith("result::Result"):
                 continue
-            prov = gate.provenance(st["r"]["ops"][0])
-            if "take_finalized_held" in prov:
+            o0 = st["r"]["ops"][0]
+            ty = o0["p"]["ty"] if o0["c"] in ("copy", "move") else ""
+            if "FrameBatch" not in ty:
+                continue  # Ok(()) of an inner future etc.
+            sl = gate.data_slice(o0)
+            from_held = any(x[0] == "call" and x[1].endswith("take_finalized_held") for x in sl)
+            from_queue = any(x[0] == "call" and re.search(r"AddressedIngressEngine::(recv_logical_message|pop|try_pop|recv)", x[1]) for x in sl) or any(x[0] == "yield" for x in sl)
+            if from_held and not from_queue:
                 r.ok(cfg, "%s|returns held batch" % short(gate.path), where(gate, b), "released by take_finalized_held()")
                 continue
-            if "tuple" not in prov and "pop" not in prov and "recv_logical_message" not in prov and "{" not in prov:
-                # not a (pid, batch) tuple (e.g. Ok(()) of an inner future)
-                pass
             gs = gate.guards(b)
             fin = any(g.atom[0] == "call" and g.atom[1].matches(r"DashMap.*::contains_key$|dashmap::.*contains_key$") and "pipe_finalized" in (g.atom[1].recv() or "") and g.truth is True for g in gs)
             held0 = False
@@ -51,8 +54,6 @@ def r1_identity_gate(chk):
                     if "held_count" in x + y and ((g.atom[1] == "Eq" and g.truth) or (g.atom[1] == "Ne" and not g.truth)) and ("const:0" in (x, y)):
                         held0 = True
             key = "%s|returns fresh batch#%d" % (short(gate.path), len([x for x in r.instances if x["config"] == cfg and "returns fresh batch" in x["key"]]))
-            if not re.search(r"tuple|Msg|FrameBatch|pop|recv_logical", prov) and not fin:
-                continue
             if fin and held0:
                 r.ok(cfg, key, where(gate, b), "guarded by pipe_finalized.contains_key(pid) && held_count == 0")
             elif fin:
